@@ -492,11 +492,15 @@ class LoopsEngine(Engine):
         "seeded user programs per loop kind (select, asyncio, tornado, twisted, zmq, trio): 2-8 alarms on a time "
         "grid with equal offsets and 0, 0-3 watched pipes with scheduled arrivals (some exactly at an alarm's due "
         "time, resolved by the tie-break tape), 0-3 idle callbacks, re-entrant API calls attached to callback "
-        "invocations, arbitrary return values, at most one raising callback, final ExitMainLoop; in 30% of the runs run() is "
+        "invocations, arbitrary return values, one raising callback (optionally a second callback of the same turn that ends the "
+        "loop with ExitMainLoop afterwards), final ExitMainLoop; in 30% of the runs run() is "
         "then called a second time on the same loop object (not Twisted: reactors cannot restart) with new alarms, an idle "
         "callback, a write, a removal and possibly another raising callback. Non-trivial: at "
         "least one re-entrant API call or injected exception fired, or an alarm and an arrival coincided; distinct = "
-        "distinct event-log digests among those."
+        "distinct event-log digests among those. IN ADDITION a bounded enumeration runs first: two alarms and one arrival on a "
+        "watched pipe, each at an instant from {0,1,2}/1024 s (every relative order incl. ties) x the four tie-break answers x "
+        "{no exception, ExitMainLoop / ordinary exception in alarm A, alarm B or the watch callback}: 756 scenarios, complete "
+        "for the select loop in every tier and for all six loops in the thorough tier."
     )
     assumptions = [
         "virtual clock; all times are multiples of 1/1024 s",
@@ -524,6 +528,7 @@ class LoopsEngine(Engine):
         "idle_checked_at_long_block",
         "loop_restarted_after_exception",
         "loop_restarted_after_exit",
+        "bounded_enumeration_scenario",
     )
     reducible = ("ops", "arrivals", "rets")
 
@@ -610,8 +615,48 @@ class LoopsEngine(Engine):
             scen["restart"] = {"ops": rops}
         return scen
 
+    def extra_scenarios(self, tier: str) -> list[dict]:
+        """Bounded enumeration (in addition to the seeded histories): one idle callback, one watched pipe, two
+        alarms A and B and one byte arrival, each at an instant from {0, 1, 2}/1024 s - i.e. EVERY relative order
+        of the two timer expiries and the descriptor becoming readable, ties included - x both answers of the
+        tie-break tape to "timer or arrival first" and "which ready descriptor first" x no exception / an
+        ExitMainLoop or an ordinary exception in A, in B or in the watch callback.  Complete for the select
+        loop (the loop the property's quantifier names) in every tier; for the other five loops in the
+        thorough tier."""
+        kinds = list(loops.KINDS) if tier == "thorough" else ["select"]
+        grid = [0.0, 1 / 1024, 2 / 1024]
+        out = []
+        for kind in kinds:
+            for ta in grid:
+                for tb in grid:
+                    for tw in grid:
+                        for tape in ([0, 0], [1, 0], [0, 1], [1, 1]):
+                            for target in (None, ("alarm", 0), ("alarm", 1), ("watch", 0)):
+                                for ek in ((None,) if target is None else ("exit", "boom")):
+                                    ops = [
+                                        {"at": "pre", "op": "enter_idle", "id": 0},
+                                        {"at": "pre", "op": "watch", "p": 0},
+                                        {"at": "pre", "op": "alarm", "id": 0, "secs": ta},
+                                        {"at": "pre", "op": "alarm", "id": 1, "secs": tb},
+                                    ]
+                                    if target is not None:
+                                        ops.append({"at": [target[0], target[1], 0], "op": "raise", "exc": ek})
+                                    out.append(
+                                        {
+                                            "config": {"loop": kind, "tiebreak": tape * 4, "t_end": 1.0},
+                                            "ops": ops,
+                                            "arrivals": [{"t": tw, "p": 0, "n": 1}],
+                                            "rets": [],
+                                            "read_plans": {"0": []},
+                                            "index": f"enum/{kind}/{int(ta * 1024)}{int(tb * 1024)}{int(tw * 1024)}/{tape[0]}{tape[1]}/{target[0] + str(target[1]) if target else 'none'}/{ek}",
+                                        }
+                                    )
+        return out
+
     def execute(self, scen: dict) -> Result:
         res = Result()
+        if str(scen.get("index", "")).startswith("enum/"):
+            res.probe("bounded_enumeration_scenario")
         run = _Run(scen, res)
         try:
             run.log.add("seed", scen.get("run_seed", 0))
